@@ -134,3 +134,38 @@ def stats(case, obs, dist):
     if _final_compound(case):
         dist['cases_with_final_compound'] = dist.get('cases_with_final_compound', 0) + 1
     dist['cls_' + case['cls']] = dist.get('cls_' + case['cls'], 0) + 1
+
+
+def extra_checks(tier, seed):
+    """asynchronous hierarchical classes, on_final callbacks that really suspend: children's on_final callbacks must
+    COMPLETE before their parents' start, the machine's last (completion order = the synchronous model's order)"""
+    n = 250 if tier == 'quick' else 8000
+    import framework as F
+    cases = []
+    for i in range(n):
+        rng = random.Random('C18a-%d-%d' % (seed, i))
+        c = hsm.gen_case(rng, p_parallel=0.4)
+        k = [0]
+        for p, d in hsm.all_defs(c['machine']):
+            if not d['onfinal']:
+                k[0] += 1
+                d['onfinal'] = [5300 + k[0]]
+            if not d['children'] and rng.random() < 0.6:
+                d['final'] = True
+        if not c['machine']['on_final']:
+            c['machine']['on_final'] = [5299]
+        hsm.trim_lists(c)
+        c['history'] = [(0, e, a) for (kk, e, a) in c['history']]
+        c['env'] = dict(default=True, bypos={}, bycb={kk: r for kk, r in c['env']['bycb'].items() if r[1] is None})
+        c['cls'] = ['HierarchicalAsyncMachine', 'HierarchicalAsyncGraphMachine'][i % 2]
+        cases.append(c)
+    mo = F.run_model(3, [hsm.enc_case(c) for c in cases])
+    io = F.run_impl('hsm', 'impl_hsm_async', cases)
+    bad = [(c, m, i) for c, m, i in zip(cases, mo, io) if m != i]
+    fired = sum(1 for o in mo for st in o[2] if sum(1 for it in st[0] if it[0] == 8) >= 2)
+    detail = dict(cases=len(cases), disagreements=len(bad), calls_with_two_or_more_on_final_items=fired)
+    if bad:
+        c, m, i = bad[0]
+        return [('async_suspending_on_final', False, detail,
+                 dict(kind='counterexample', stream='HierarchicalAsyncMachine with suspending on_final callbacks', case=c, model_obs=m, impl_obs=i))]
+    return [('async_suspending_on_final', True, detail, {})]
